@@ -166,6 +166,18 @@ where
                     || format!("hang=1 tier={} seed={} shard={}/{}", tier, seed, i, n),
                 );
             }
+            _ if crash_signal(&status).is_some() => {
+                // the worker was killed by a fault signal: a panic inside a destructor that runs during
+                // unwinding (the process aborts), a stack overflow, an illegal access. Never the harness's
+                // own panics (those exit with a code), never the OOM killer (SIGKILL stays inconclusive).
+                let sig = crash_signal(&status).unwrap();
+                let (tier, seed) = (ctx.tier_name().to_string(), ctx.seed);
+                total.violation(
+                    &format!("crashed|signal-{}", sig),
+                    || format!("worker {}/{} was killed by signal {} ({}) inside a library call: the process aborted instead of returning or unwinding", i, n, sig, match sig { 6 => "SIGABRT: panic while unwinding / abort", 11 => "SIGSEGV", 7 => "SIGBUS", 4 => "SIGILL", _ => "SIGFPE" }),
+                    || format!("hang=1 tier={} seed={} shard={}/{}", tier, seed, i, n),
+                );
+            }
             _ => total.inconclusive(format!("shard {}/{} failed ({:?})", i, n, status.code())),
         }
         let _ = std::fs::remove_file(&out);
@@ -216,6 +228,14 @@ where
 }
 
 pub const HANG_LIMIT: f64 = 60.0;
+
+fn crash_signal(status: &std::process::ExitStatus) -> Option<i32> {
+    use std::os::unix::process::ExitStatusExt;
+    match status.signal() {
+        Some(s) if [4, 6, 7, 8, 11].contains(&s) => Some(s),
+        _ => None,
+    }
+}
 
 fn arg_value(args: &[String], name: &str) -> Option<String> {
     args.iter().position(|a| a == name).and_then(|i| args.get(i + 1).cloned())
@@ -315,6 +335,11 @@ fn main() {
                     .status()
                     .expect("cannot spawn worker");
                 let _ = std::fs::remove_file(&out);
+                if let Some(sig) = crash_signal(&st) {
+                    println!("[dsiverif] replay {}: worker {} was killed by signal {} again", prop, kv.get("shard"), sig);
+                    println!("[dsiverif]   violation crashed|signal-{}: worker {} aborted inside a library call", sig, kv.get("shard"));
+                    std::process::exit(1);
+                }
                 if st.code() == Some(HANG_EXIT) {
                     println!("[dsiverif] replay {}: worker {} did not return again", prop, kv.get("shard"));
                     println!("[dsiverif]   violation did-not-return: worker {} burnt {} CPU-seconds in one operation", kv.get("shard"), HANG_LIMIT);
